@@ -17,15 +17,16 @@
    where op_valid = "NumPy accepts the assignment".  It is refuted by each of the witnesses below;
    the proved part restricts every assignment of the history to [op_dom sh] = op_valid and the
    named clauses
-     D1   d1_clause            no user-given stop in [step, -1] together with a negative step
-     D4   d4_clause            no negative step whose normalised start is 0 on an axis longer than 1
+          nonempty_key         the key is not the empty tuple ()
           value_ndim_clause    the value has no more axes than the key has slices
           fancy_in_range       integer-list keys hold indices in [0, extent) only
           fancy_nonempty       integer-list keys are not empty
           fancy_value_clause   the value of an integer-list key is 0-d or has exactly the lists' length
           (boolean-mask keys are outside the domain altogether: the code rejects them)
-   and reads to [read_dom sh] = D1 and
-          renorm_clause        no negative step whose first normalisation ends with start < 0. *)
+   and reads to [read_dom sh] = nonempty_key / fancy_in_range / no mask.
+   There is NO clause about slices: every start/stop/step (any sign, any size, None) is inside
+   the domain — the former defects D1, D4 and the double normalisation of reads were repaired in
+   /repo (f6512bb, 97946a9) and the theorems below are proved for the code as it is now. *)
 From Coq Require Import ZArith List Bool.
 From Verif Require Import Py PyExt G_slicing G_dok PySlice Shape Slicing COO NpAssign DOK DOKP.
 Import ListNotations.
@@ -96,33 +97,6 @@ Print Assumptions dok_tocoo_partial.
 
 (* ---- the full statement is false: one witness per clause (elements: Z) ---- *)
 
-(* D4: d = DOK((5,)); d[0::-1] = 7 writes all five elements *)
-Theorem dok_setitem_refuted :
-  exists (sh : shape) (fill : Z) (op : key * arr Z) (ix : idx),
-    shape_ok sh /\ op_valid sh op = true /\ all_entries_ok d1_only sh (fst op) = true /\
-    abs fill (step Z.eqb sh fill [] op) ix <> np_assign sh (np_full fill) op ix.
-Proof. exact dok_setitem_refuted_proof. Qed.
-Print Assumptions dok_setitem_refuted.
-
-(* D1: d[3:-1:-1] = 7 writes elements 3..0; NumPy: none *)
-Theorem dok_setitem_d1_refuted :
-  exists (sh : shape) (fill : Z) (op : key * arr Z) (ix : idx),
-    shape_ok sh /\ op_valid sh op = true /\ all_entries_ok d4_only sh (fst op) = true /\
-    abs fill (step Z.eqb sh fill [] op) ix <> np_assign sh (np_full fill) op ix.
-Proof. exact dok_setitem_d1_refuted_proof. Qed.
-Print Assumptions dok_setitem_d1_refuted.
-
-(* reads normalise twice: DOK(arange(1,6))[-7:-6:-2] is [5,3,1]; NumPy: empty *)
-Theorem dok_getitem_refuted :
-  exists (sh : shape) (fill : Z) (st : state Z) (k : key),
-    shape_ok sh /\ wf Z Z.eqb fill sh st /\ all_entries_ok d1_only sh k = true /\
-    match np_getitem sh (abs fill st) k with
-    | Some r => getitem sh fill st k <> Ok r
-    | None => False
-    end.
-Proof. exact dok_getitem_refuted_proof. Qed.
-Print Assumptions dok_getitem_refuted.
-
 (* d[[-1]] = 5 stores the key (-1,) *)
 Theorem dok_fancy_negative_refuted :
   exists (sh : shape) (fill : Z) (op : key * arr Z) (ix : idx),
@@ -151,7 +125,15 @@ Print Assumptions dok_mask_refuted.
 (* d[0:2] = [[1, 2]] is rejected (ValueError) *)
 Theorem dok_value_ndim_refuted :
   exists (sh : shape) (fill : Z) (op : key * arr Z) (ix : idx),
-    shape_ok sh /\ op_valid sh op = true /\ all_entries_ok entry_setdom sh (fst op) = true /\
+    shape_ok sh /\ op_valid sh op = true /\
     abs fill (step Z.eqb sh fill [] op) ix <> np_assign sh (np_full fill) op ix.
 Proof. exact dok_value_ndim_refuted_proof. Qed.
 Print Assumptions dok_value_ndim_refuted.
+
+(* d[()] = 5 is rejected (NotImplementedError; IndexError on a 1-d array) *)
+Theorem dok_empty_key_refuted :
+  exists (sh : shape) (fill : Z) (op : key * arr Z) (ix : idx),
+    shape_ok sh /\ op_valid sh op = true /\
+    abs fill (step Z.eqb sh fill [] op) ix <> np_assign sh (np_full fill) op ix.
+Proof. exact dok_empty_key_refuted_proof. Qed.
+Print Assumptions dok_empty_key_refuted.
